@@ -355,7 +355,8 @@ func (h *harness) handler(phase string) state.HandlerFunc {
 		h.mu.Unlock()
 		switch res.Kind {
 		case "err":
-			return fmt.Errorf("boom-%d-%s", idx, phase)
+			// few distinct texts: several failed tasks often share the same message
+			return fmt.Errorf("boom-%d-%s", idx%2, phase)
 		case "retry":
 			return &state.Retry{After: res.After}
 		case "wait":
